@@ -68,7 +68,9 @@ fn run_server_side(ctx: &RunCtx) -> RunOut {
     let net = Net::new(cfg);
     // shutdown plan: 0-3 calls with n in 0..=3 at drawn moments
     let ncalls = draw_usize(4);
-    let calls: Vec<(u32, usize)> = (0..ncalls).map(|_| (draw(80), draw_usize(4))).collect();
+    // n in 0..3, or - one call in eight - enormous ("let everything in flight through"): the identifier must stay a
+    // request stream id
+    let calls: Vec<(u32, usize)> = (0..ncalls).map(|_| (draw(80), *pick(&[0usize, 1, 2, 3, 0, 1, 2, 3, 0, 1, 2, 3, 0, 1, usize::MAX, 1 << 60]))).collect();
     // the peer: control stream + k requests written in a drawn order, at drawn moments
     let mut order: Vec<usize> = (0..k).collect();
     for i in (1..k).rev() {
@@ -147,7 +149,7 @@ fn run_server_side(ctx: &RunCtx) -> RunOut {
                 match sel {
                     Sel::Shut(n) => {
                         gates.remove(0);
-                        obs::ev("app.shutdown", n as u64 * 4, 0);
+                        obs::ev("app.shutdown", (n as u64).saturating_mul(4), 0);
                         match c.shutdown(n).await {
                             Ok(()) => {
                                 let ids = goaways_on_wire(&net2.lock().unwrap(), SERVER);
@@ -489,7 +491,7 @@ impl Check for C08 {
     fn meta(&self) -> Meta {
         Meta {
             level: "exploration",
-            rule: "server side: histories interleaving 1-6 request arrivals (peer write order and, with arrival-order accept, delivery order drawn, so stream 8 may arrive before 4), 0-3 shutdown(n) calls with n in 0..3 at drawn moments (while a shutdown call is still planned the wait for the next request is the poll-based equivalent of accept() so that it can be interrupted without cancelling a future in the middle of a write; after the last planned call the application calls accept() itself and stops at None), request handling, streams that arrive after accept() has reported the end judged against the last GOAWAY on the wire; client side: received GOAWAY id sequences of length 1-3 over {8,4,0,12,400,16384,1,2,3,7} in all varint forms, racing and later send_request calls, in one run in three after the client application called shutdown() itself; all task interleavings and chunkings drawn; non-trivial = a GOAWAY was written and >= 2 requests (server) / >= 2 GOAWAYs or >= 2 chunks (client); distinct = distinct schedule signatures",
+            rule: "server side: histories interleaving 1-6 request arrivals (peer write order and, with arrival-order accept, delivery order drawn, so stream 8 may arrive before 4), 0-3 shutdown(n) calls with n in 0..3 (one call in eight: 2^60 or usize::MAX) at drawn moments (while a shutdown call is still planned the wait for the next request is the poll-based equivalent of accept() so that it can be interrupted without cancelling a future in the middle of a write; after the last planned call the application calls accept() itself and stops at None), request handling, streams that arrive after accept() has reported the end judged against the last GOAWAY on the wire; client side: received GOAWAY id sequences of length 1-3 over {8,4,0,12,400,16384,1,2,3,7} in all varint forms, racing and later send_request calls, in one run in three after the client application called shutdown() itself; all task interleavings and chunkings drawn; non-trivial = a GOAWAY was written and >= 2 requests (server) / >= 2 GOAWAYs or >= 2 chunks (client); distinct = distinct schedule signatures",
             real: &["h3 server Connection (accept filter, shutdown, last-accepted bookkeeping)", "h3 client Connection (GOAWAY processing) and SendRequest", "ConnectionInner::shutdown / process_goaway"],
             stub: &["QUIC transport (SimQuic)", "executor (simexec)", "peer (script; parses h3's control stream with the reference codecs)", "application (accept/shutdown loop, echo handler; client probes)"],
             assumptions: &["the sequential history of the accept task defines 'shown before / after a GOAWAY was written'", "requests racing with the delivery of a GOAWAY are unconstrained"],
